@@ -238,7 +238,12 @@ class StmtMixin:
                 raise Unsupported("loop over a symbolic range/list needs an invariant: %s loop %s at %s" % (frame.qual, k, w))
             return self.invariant_loop(frame, s, lc, k, it)
         if lc is not None and lc.invariants():
-            raise ShapeMismatch("CONTRACT-SHAPE-MISMATCH %s loop %s: invariant given but the iterable is concrete" % (frame.qual, k))
+            # a contract is given: use the Hoare rule even though this instance could be unrolled
+            if isinstance(it, range) and it.step == 1:
+                return self.invariant_loop(frame, s, lc, k, SymRange(it.start, it.stop))
+            if isinstance(it, list) and all(self.ops.is_intlike(x) for x in it):
+                return self.invariant_loop(frame, s, lc, k, self.to_symlist(it))
+            raise ShapeMismatch("CONTRACT-SHAPE-MISMATCH %s loop %s: invariant given but the iterable is %s" % (frame.qual, k, type(it).__name__))
         items = self.concrete_iter(it, w)
         for x in items:
             self.assign(frame, s.target, x)
@@ -329,7 +334,7 @@ class StmtMixin:
         # 1. invariant holds on entry
         old = {("old_" + n): v for n, v in pre_state.items()}
         for label, expr in lc.invariants():
-            g = self.eval_spec(expr, frame, old)
+            g = self.eval_formula(expr, dict(frame.locals, **old))
             ctx.oblige("%s/%s/init" % (base, label), g, w, "invariant-init", assume_after=False)
         # 2. havoc everything the body may change
         targets = set(names) | set(mutated) | ({counter} if it is not None else set())
@@ -341,7 +346,7 @@ class StmtMixin:
                 frame.locals[nm] = self.havoc_value(nm, frame.locals[nm])
         # variables first assigned inside the body are simply undefined at loop head
         for label, expr in lc.invariants():
-            ctx.assume(zbool(self.eval_spec(expr, frame, old)))
+            ctx.assume(self.eval_formula(expr, dict(frame.locals, **old)))
         # 3. guard
         if it is None:
             t = self.ops.truth(self.eval(frame, s.test))
@@ -369,7 +374,7 @@ class StmtMixin:
         if lc.ghost_step:
             self.exec_ghost(frame, lc.ghost_step)
         for label, expr in lc.invariants():
-            g = self.eval_spec(expr, frame, old)
+            g = self.eval_formula(expr, dict(frame.locals, **old))
             ctx.oblige("%s/%s/preserved" % (base, label), g, w, "invariant-preservation", assume_after=False)
         raise Killed()
 
